@@ -110,10 +110,20 @@ func run(op string, args []string) string {
 			return "ok " + hx(rest) + " " + hx(v)
 		case "ebp":
 			// EncodeBytes(prefix-with-spare-capacity, data) must append: prefix kept, encoding after it
+			// the destination is a REUSED buffer: its spare capacity holds stale non-zero bytes, and comes in three sizes
+			// (ample, too small for the encoding, none), all of which must give the same answer
 			pre := unhx(args[0])
-			b := make([]byte, len(pre), len(pre)+64)
-			copy(b, pre)
-			return hx(codec.EncodeBytes(b, unhx(args[1])))
+			var first []byte
+			for i, spare := range []int{64, 5, 0} {
+				b := dirtyDst(pre, spare)
+				got := codec.EncodeBytes(b, unhx(args[1]))
+				if i == 0 {
+					first = got
+				} else if !bytes.Equal(first, got) {
+					return "spare-capacity-dependent " + hx(first) + " vs " + hx(got)
+				}
+			}
+			return hx(first)
 		case "eu":
 			return hx(codec.EncodeUint(nil, parseU(args[0])))
 		case "eud":
@@ -232,6 +242,19 @@ func propsBytes(a, b, rest []byte) {
 			r2, v2, err2 := codec.DecodeBytes(append([]byte{}, in...), buf)
 			prop("bytes_scratch_buffer", err2 == nil && bytes.Equal(r2, rest) && bytes.Equal(v2, a), hx(a), hx(rest), strconv.Itoa(bl))
 		}
+		// EncodeBytes appends to its first argument, whatever that buffer's spare capacity holds (a reused buffer holds
+		// stale non-zero bytes there): prefix kept, then exactly the encoding of a fresh call, which decodes back to a
+		for _, spare := range []int{len(ea) + 16, 5, 0} {
+			pre := []byte{0xDE, 0xAD}
+			got := codec.EncodeBytes(dirtyDst(pre, spare), a)
+			okEnc := bytes.HasPrefix(got, pre) && bytes.Equal(got[len(pre):], ea)
+			var okDec bool
+			if len(got) >= len(pre) {
+				r3, v3, err3 := codec.DecodeBytes(append([]byte{}, got[len(pre):]...), nil)
+				okDec = err3 == nil && len(r3) == 0 && bytes.Equal(v3, a)
+			}
+			prop("append_bytes", okEnc && okDec, hx(a), strconv.Itoa(spare))
+		}
 		prop("bytes_order", sign(bytes.Compare(ea, eb)) == sign(bytes.Compare(a, b)), hx(a), hx(b))
 		prop("bytes_prefix_free", bytes.Equal(a, b) || !bytes.HasPrefix(eb, ea), hx(a), hx(b))
 	}()
@@ -271,6 +294,20 @@ func propsDecodeStrict(in []byte) {
 	chkI("dcv", codec.DecodeComparableVarint)
 }
 
+// dirtyDst returns a slice with contents pre and `spare` bytes of spare capacity filled with stale non-zero bytes, as a
+// destination buffer that is being reused (buf = Encode(buf[:0], ...)) looks like.
+func dirtyDst(pre []byte, spare int) []byte {
+	b := make([]byte, len(pre)+spare)
+	for i := range b {
+		b[i] = 0xA5 ^ byte(i*7)
+		if b[i] == 0 {
+			b[i] = 0x5A
+		}
+	}
+	copy(b, pre)
+	return b[:len(pre):len(pre)+spare]
+}
+
 func propsInts(a, b int64, rest []byte) {
 	defer func() {
 		if r := recover(); r != nil {
@@ -278,8 +315,7 @@ func propsInts(a, b int64, rest []byte) {
 		}
 	}()
 	// every encoder appends to its first argument: enc(prefix, v) = prefix ++ enc(nil, v), prefix untouched
-	pre := make([]byte, 3, 40)
-	copy(pre, []byte{0xDE, 0xAD, 0xBE})
+	pre := dirtyDst([]byte{0xDE, 0xAD, 0xBE}, 37) // reused destination: stale non-zero bytes in the spare capacity
 	okApp := func(got, want []byte) bool { return bytes.HasPrefix(got, []byte{0xDE, 0xAD, 0xBE}) && bytes.Equal(got[3:], want) }
 	prop("append_int", okApp(codec.EncodeInt(pre[:3], a), codec.EncodeInt(nil, a)) && okApp(codec.EncodeIntDesc(pre[:3], a), codec.EncodeIntDesc(nil, a)) &&
 		okApp(codec.EncodeVarint(pre[:3], a), codec.EncodeVarint(nil, a)) && okApp(codec.EncodeComparableVarint(pre[:3], a), codec.EncodeComparableVarint(nil, a)), i64s(a))
